@@ -70,6 +70,7 @@ def run_history(hist, init):
     from dvc_data.index import update as iupdate
 
     viol = []
+    _SHARED_INFOS = {}   # (see the 'many' operation)
     answers = 0
     hits = 0
     with World() as w:
@@ -249,6 +250,12 @@ def run_history(hist, init):
                     for p, _m, hi in got:
                         f = os.path.basename(p)
                         answer("get_many", f, hi.value if hi is not None and hi.name == "md5" else None, i, op)
+                    # the same lookup with a mapping of known stat results that the caller keeps (and never fills):
+                    # whatever the library looked up itself last time must not be remembered through it
+                    got = list(state.get_many(ex, LFS, _SHARED_INFOS))
+                    for p, _m, hi in got:
+                        f = os.path.basename(p)
+                        answer("get_many-kept-infos", f, hi.value if hi is not None and hi.name == "md5" else None, i, op)
                 elif k == "build":
                     if any(os.path.exists(p) for p in paths.values()):
                         _s, _m, obj = build(odb, ws, LFS, "md5", dry_run=True)
